@@ -206,7 +206,7 @@ pub fn gen(out: &mut Out, sub: &str) {
         }
         return;
     }
-    let n = out.size(20_000, 400_000);
+    let n = out.size(20_000, 250_000);
     for _ in 0..n {
         let (tokens, text) = random_case(&mut rng);
         let sz = sizes(&mut rng);
